@@ -16,6 +16,11 @@ if SRC not in sys.path or sys.path[0] != SRC:
     sys.path.insert(0, SRC)
 os.environ["PYTHONPATH"] = SRC + (os.pathsep + os.environ["PYTHONPATH"] if os.environ.get("PYTHONPATH") else "")
 
+if os.environ.get("VERIF_LINECOV"):
+    from . import linecov as _linecov  # noqa: E402
+
+    _linecov.install(SRC)
+
 import jasm  # noqa: E402
 
 if not os.path.abspath(jasm.__file__).startswith(SRC + os.sep):
